@@ -154,7 +154,7 @@ NatVal(b) == IF b = <<>> THEN 0 ELSE 10 * NatVal(SubSeq(b, 1, Len(b) - 1)) + (b[
 DecVal(s) == IF s[1] = 45 THEN 0 - NatVal(DecBody(s)) ELSE NatVal(DecBody(s))
 Upper(s)  == [j \in 1..Len(s) |-> IF s[j] >= 97 /\ s[j] <= 122 THEN s[j] - 32 ELSE s[j]]
 
-NoConv == {"x", "n", "l", "m", "u"}      \* absent, nil, list, map, time: zero value
+NoConv == {"x", "n", "l", "m"}           \* absent, nil, list, map: zero value
 Pin(v) == [open |-> FALSE, v |-> v]
 Open   == [open |-> TRUE, v |-> 0]
 
@@ -171,11 +171,11 @@ StrC(n) == CASE n.t = "s" -> Pin(n.s)
              [] n.t = "i" -> Pin(IntTxt(n.i))
              [] n.t = "x" -> Pin(<<>>)
              [] OTHER -> Open
-BytesC(n) == IF n.t = "s" THEN Pin(n.s) ELSE Pin(<<>>)
+BytesC(n) == IF n.t = "s" THEN Pin(n.s) ELSE IF n.t \in NoConv THEN Pin(<<>>) ELSE Open
 F64C(n) == LET c == IntC(n) IN IF c.open THEN Open ELSE Pin([int |-> TRUE, v |-> c.v])
 DurC(n) == CASE n.t = "i" -> Pin([ok |-> TRUE, v |-> n.i])
-             [] n.t = "s" -> Open
-             [] OTHER -> Pin([ok |-> FALSE, v |-> 0])
+             [] n.t \in NoConv \cup {"b", "u"} -> Pin([ok |-> FALSE, v |-> 0])
+             [] OTHER -> Open
 TimeC(n) == IF n.t = "u" THEN Pin([ok |-> TRUE, v |-> n.u]) ELSE Pin([ok |-> FALSE, v |-> 0])
 
 (* what a handle shows: its value; under the deviation, what the heap holds *)
